@@ -196,7 +196,7 @@ class SummationGraderBase(AbstractGrader, MathMixin):
         # Validate the input
         structured_input = self.structure_and_validate_input(student_input)
         for key in structured_input:
-            if structured_input[key] == '':
+            if structured_input[key].strip() == '':
                 msg = "Please enter a value for {key}, it cannot be empty."
                 raise MissingInput(msg.format(key=key))
         self.validate_user_dummy_variable(structured_input[self.wording['adjective'] + '_variable'])
